@@ -47,11 +47,10 @@ func runC06(c *eng.Ctx, thorough bool) {
 		var deferIn []ssa.Instruction
 		for _, in := range eng.Instrs(f, func(in ssa.Instruction) bool { _, ok := in.(*ssa.Defer); return ok }) {
 			d := in.(*ssa.Defer)
-			mc, ok := d.Call.Value.(*ssa.MakeClosure)
-			if !ok {
+			fn, mc := nfFuncValue(d.Call.Value)
+			if fn == nil || mc == nil || fn.Parent() != f {
 				continue
 			}
-			fn := mc.Fn.(*ssa.Function)
 			// the rollback closure: the deferred closure that reads the named error result
 			reads := false
 			for _, fv := range fn.FreeVars {
@@ -65,8 +64,8 @@ func runC06(c *eng.Ctx, thorough bool) {
 			}
 		}
 		c.Clause("R3", "C06.1")
-		persist := instrsOf(eng.Calls(f, `vault\.\(\*ExpirationManager\)\.persistEntry$`))
-		index := instrsOf(eng.Calls(f, `vault\.\(\*ExpirationManager\)\.createIndexByToken$`))
+		persist := nfAts(nfSites(f, `vault\.\(\*ExpirationManager\)\.persistEntry$`))
+		index := nfAts(nfSites(f, `vault\.\(\*ExpirationManager\)\.createIndexByToken$`))
 		c.Floor(f, "persistEntry", len(persist), 1)
 		c.Floor(f, "createIndexByToken", len(index), 1)
 		if clo == nil {
@@ -137,24 +136,29 @@ func runC06(c *eng.Ctx, thorough bool) {
 			}
 		}
 		if c.Floor(f, "returns of a lease ID", len(succ), 1) {
-			c.Cut(f, "return of a lease ID", succ, eng.GCallOK(f, `vault\.\(\*ExpirationManager\)\.persistEntry$`), nil)
-			ix := eng.GCallOK(f, `vault\.\(\*ExpirationManager\)\.createIndexByToken$`)
-			c.Cut(f, "return of a lease ID", succ, eng.Or(eng.Guard{Desc: ix.Desc, Edges: ix.Edges}, eng.G(f, `^φ?indexToken(\{.*\})? == ""$`, true)), nil)
+			nfCutOK(c, f, "return of a lease ID", succ, 1, nfGCallOK(f, `vault\.\(\*ExpirationManager\)\.persistEntry$`))
+			nfCutOK(c, f, "return of a lease ID", succ, 1, nfGCallOK(f, `vault\.\(\*ExpirationManager\)\.createIndexByToken$`), eng.G(f, `^φ?indexToken(\{.*\})? == ""$`, true))
 			c.Clause("R3", "C06.1")
-			c.Before(f, "updatePending", instrsOf(eng.Calls(f, `vault\.\(\*ExpirationManager\)\.updatePending$`)), "return of a lease ID", succ)
+			c.Before(f, "updatePending", nfAts(nfSites(f, `vault\.\(\*ExpirationManager\)\.updatePending$`)), "return of a lease ID", succ)
 		}
 	}
 
 	// ---------- C06.2 / C06.3 / C06.5 handleRequest
 	if f := c.Fn("vault.(*Core).handleRequest"); f != nil {
 		c.Clause("R4", "C06.2")
-		for _, rg := range eng.Calls(f, `vault\.\(\*ExpirationManager\)\.Register$`) {
-			c.NilResultOnEdges(f, "expiration.Register failed", eng.CallFailEdges(rg), 0, "response")
+		regS := nfPlain(nfSites(f, `vault\.\(\*ExpirationManager\)\.Register$`))
+		for _, rg := range regS {
+			c.NilResultOnEdges(f, "expiration.Register failed", nfFailEdgesOf(rg), 0, "response")
 		}
 		c.Clause("R2", "C06.2")
-		lease := instrsOf(eng.Stores(f, `\.Secret\.LeaseID$`))
+		var lease []ssa.Instruction
+		for _, st := range nfFieldStores(f, c.P.Field("logical.Secret.LeaseID")) {
+			if st.Fn == f {
+				lease = append(lease, st.St)
+			}
+		}
 		c.Floor(f, "resp.Secret.LeaseID store", len(lease), 1)
-		c.Cut(f, "resp.Secret.LeaseID = leaseID", lease, eng.GCallOK(f, `vault\.\(\*ExpirationManager\)\.Register$`), nil)
+		c.Cut(f, "resp.Secret.LeaseID = leaseID", lease, nfGCallOK(f, `vault\.\(\*ExpirationManager\)\.Register$`), nil)
 		c.Clause("R5", "C06.2")
 		for _, st := range lease {
 			c.Prov(f, "lease ID attached to the response", st, st.(*ssa.Store).Val, `^call:vault\.\(\*ExpirationManager\)\.Register#0$`)
@@ -171,7 +175,7 @@ func runC06(c *eng.Ctx, thorough bool) {
 		mustReg := eng.PhiEdges(f, "registerLease", isConst("true"))
 		noReg := eng.PhiEdgeSinks(f, "registerLease", isConst("false"))
 		if c.Floor(f, "edges with registerLease = true", len(mustReg), 1) && c.Floor(f, "registerLease = false arms", len(noReg), 1) {
-			blocked := eng.GCallOK(f, `vault\.\(\*ExpirationManager\)\.Register$`).Edges
+			blocked := nfOKEdgesOf(regS)
 			nTests := 0
 			testPos := f.Pos()
 			for _, b := range f.Blocks {
@@ -205,34 +209,36 @@ func runC06(c *eng.Ctx, thorough bool) {
 		inl := eng.CondEdges(f, `^req\.HasInlineAuth$`, true)
 		c.NilResultOnEdges(f, "lease generated under inline authentication", inl, 0, "response")
 		if len(inl) > 0 {
-			reg := instrsOf(eng.Calls(f, `vault\.\(\*ExpirationManager\)\.Register$`))
+			reg := nfAts(regS)
 			if h := eng.Reach(eng.Query{Fn: f, StartEdges: inl, Target: eng.IsTarget(reg)}); h != nil {
 				c.Violation(f, "on{inline auth lease} no registration", h.Instr.Pos(), "a lease generated under inline authentication can still be registered", h.Witness)
 			} else {
 				c.OK(f, "on{inline auth lease} no registration", reg[0].Pos(), "the inline-auth arm never reaches expiration.Register")
 			}
-			c.CleanupOnEdges(f, "lease generated under inline authentication", inl, "router.Route(RevokeRequest)", instrsOf(eng.Calls(f, `routing\.\(\*Router\)\.Route$`)))
+			c.CleanupOnEdges(f, "lease generated under inline authentication", inl, "router.Route(RevokeRequest)", nfAts(nfSites(f, `routing\.\(\*Router\)\.Route$`)))
 		}
 		// C06.3 token creation
 		c.Clause("R4", "C06.3")
-		for _, ra := range eng.Calls(f, `vault\.\(\*ExpirationManager\)\.RegisterAuth$`) {
-			fe := eng.CallFailEdges(ra)
-			c.CleanupOnEdges(f, "expiration.RegisterAuth failed", fe, "tokenStore.revokeOrphan", instrsOf(eng.Calls(f, `vault\.\(\*TokenStore\)\.revokeOrphan$`)))
+		hrRevokeS := nfSites(f, `vault\.\(\*TokenStore\)\.revokeOrphan$`)
+		hrRAS := nfPlain(nfSites(f, `vault\.\(\*ExpirationManager\)\.RegisterAuth$`))
+		for _, ra := range hrRAS {
+			fe := nfFailEdgesOf(ra)
+			c.CleanupOnEdges(f, "expiration.RegisterAuth failed", fe, "tokenStore.revokeOrphan", nfAts(hrRevokeS))
 			c.NilResultOnEdges(f, "expiration.RegisterAuth failed", fe, 0, "response")
 		}
-		c.Floor(f, "RegisterAuth call", len(eng.Calls(f, `vault\.\(\*ExpirationManager\)\.RegisterAuth$`)), 1)
+		c.Floor(f, "RegisterAuth call", len(hrRAS), 1)
 		c.Clause("R5", "C06.3")
-		for _, ro := range eng.Calls(f, `vault\.\(\*TokenStore\)\.revokeOrphan$`) {
-			c.Prov(f, "token revoked on failure", ro, ro.Common().Args[2], `\.Auth\.ClientToken$`)
+		for _, e := range nfEffs(hrRevokeS) {
+			nfProv(c, e.Fn, "token revoked on failure", e.Call.In, e.Call.Args[2], e.Fr, `\.Auth\.ClientToken$`)
 		}
 		// C06.5 only the token store returns auth
 		c.Clause("R4", "C06.5")
 		c.NilResultOnEdges(f, "auth block from a non-token backend", eng.CondEdgesDeep(f, `^strings\.HasPrefix\(req\.Path, "auth/token/"\)$`, false), 0, "response")
 		// entity/policy lookup failure after token creation
 		c.Clause("R4", "C06.3")
-		for _, fe := range eng.Calls(f, `vault\.\(\*Core\)\.fetchEntityAndDerivedPolicies$`) {
-			e := eng.CallFailEdges(fe)
-			c.CleanupOnEdges(f, "fetchEntityAndDerivedPolicies failed after a token was created", e, "tokenStore.revokeOrphan", instrsOf(eng.Calls(f, `vault\.\(\*TokenStore\)\.revokeOrphan$`)))
+		for _, fe := range nfPlain(nfSites(f, `vault\.\(\*Core\)\.fetchEntityAndDerivedPolicies$`)) {
+			e := nfFailEdgesOf(fe)
+			c.CleanupOnEdges(f, "fetchEntityAndDerivedPolicies failed after a token was created", e, "tokenStore.revokeOrphan", nfAts(hrRevokeS))
 			c.NilResultOnEdges(f, "fetchEntityAndDerivedPolicies failed after a token was created", e, 0, "response")
 		}
 	}
@@ -242,16 +248,57 @@ func runC06(c *eng.Ctx, thorough bool) {
 	}
 	if f := c.Fn("vault.(*Core).RegisterAuth"); f != nil {
 		c.Clause("R4", "C06.3")
-		ras := eng.Calls(f, `vault\.\(\*ExpirationManager\)\.RegisterAuth$`)
+		// the lease registration and the cleanup are found directly, through a bound method value, or
+		// inside a closure / helper that performs them (props/c04follow.go)
+		ras := nfPlain(nfSites(f, `vault\.\(\*ExpirationManager\)\.RegisterAuth$`))
+		revokeS := nfSites(f, `vault\.\(\*TokenStore\)\.revokeOrphan$`)
 		c.Floor(f, "RegisterAuth call", len(ras), 1)
 		for _, ra := range ras {
-			fe := eng.CallFailEdges(ra)
-			c.CleanupOnEdges(f, "expiration.RegisterAuth failed", fe, "tokenStore.revokeOrphan", instrsOf(eng.Calls(f, `vault\.\(\*TokenStore\)\.revokeOrphan$`)))
+			fe := nfFailEdgesOf(ra)
+			c.CleanupOnEdges(f, "expiration.RegisterAuth failed", fe, "tokenStore.revokeOrphan", nfAts(revokeS))
 			c.NilResultOnEdges(f, "expiration.RegisterAuth failed", fe, 0, "token entry")
 		}
 		c.Clause("R5", "C06.3")
-		for _, ro := range eng.Calls(f, `vault\.\(\*TokenStore\)\.revokeOrphan$`) {
-			c.Prov(f, "token revoked on failure", ro, ro.Common().Args[2], `^field:&te\.ID$`, `^field:te\.ID$`)
+		// the token revoked is the ID of the entry that was created: field ID of the variable `te`, read in
+		// place, through a pointer alias or through a capturing closure
+		idF := c.P.Field("logical.TokenEntry.ID")
+		var created []*ssa.Alloc
+		createS := nfSites(f, `vault\.\(\*Core\)\.CreateToken$|vault\.\(\*TokenStore\)\.create$`)
+		for _, e := range nfEffs(createS) {
+			if len(e.Call.Args) > 2 {
+				created = append(created, c06Pointees(e.Call.Args[2], e.Fr)...)
+			}
+		}
+		for _, e := range nfEffs(revokeS) {
+			site := "prov{token revoked on failure}"
+			if idF == nil || len(created) == 0 {
+				c.Undecided(e.Fn, site, e.Call.In.Pos(), "the entry handed to token creation is not a local variable: the rule cannot be evaluated")
+				continue
+			}
+			ok, bad := nfAll(e.Call.Args[2], e.Fr, func(o eng.Origin) bool {
+				base, is := nfFieldOf(o, idF)
+				if !is {
+					return false
+				}
+				ps := c06Pointees(base, e.Fr)
+				for _, p := range ps {
+					hit := false
+					for _, cr := range created {
+						if cr == p {
+							hit = true
+						}
+					}
+					if !hit {
+						return false
+					}
+				}
+				return len(ps) > 0
+			})
+			if ok {
+				c.OK(e.Fn, site, e.Call.In.Pos(), "the ID of the entry handed to token creation")
+			} else {
+				c.Violation(e.Fn, site, e.Call.In.Pos(), "on failure "+eng.Expr(e.Call.Args[2])+" ("+bad+") is revoked, not the token created above", nil)
+			}
 		}
 		// the token is created before its lease; success returns cross both
 		c.Clause("R2", "C06.3")
@@ -262,18 +309,18 @@ func runC06(c *eng.Ctx, thorough bool) {
 			}
 		}
 		if c.Floor(f, "returns of a token entry", len(succ), 1) {
-			c.Cut(f, "return of a token entry", succ, eng.GCallOK(f, `vault\.\(\*Core\)\.CreateToken$|vault\.\(\*TokenStore\)\.create$`), nil)
-			ra := eng.GCallOK(f, `vault\.\(\*ExpirationManager\)\.RegisterAuth$`)
-			c.Cut(f, "return of a token entry", succ, eng.Or(eng.Guard{Desc: ra.Desc, Edges: ra.Edges}, eng.G(f, `^auth\.TokenType == `+service+`$`, false), eng.G(f, `^auth\.TokenType == `+batch+`$`, true)), nil)
+			nfCutOK(c, f, "return of a token entry", succ, 1, nfOKOf(`success edge of vault\.\(\*Core\)\.CreateToken$|vault\.\(\*TokenStore\)\.create$`, createS))
+			nfCutOK(c, f, "return of a token entry", succ, 1, nfGCallOK(f, `vault\.\(\*ExpirationManager\)\.RegisterAuth$`), eng.G(f, `^auth\.TokenType == `+service+`$`, false), eng.G(f, `^auth\.TokenType == `+batch+`$`, true))
 		}
 	}
 
 	// ---------- C06.3 wrapInCubbyhole
 	if f := c.Fn("vault.(*Core).wrapInCubbyhole"); f != nil {
 		c.Clause("R8", "C06.3")
-		ct := eng.Calls(f, `vault\.\(\*Core\)\.CreateToken$`)
-		if c.Floor(f, "CreateToken call", len(ct), 1) {
-			okEdges := eng.CallOKEdges(ct[0])
+		ctS := nfPlain(nfSites(f, `vault\.\(\*Core\)\.CreateToken$`))
+		if c.Floor(f, "CreateToken call", len(ctS), 1) {
+			ct := nfAts(ctS)
+			okEdges := nfOKEdgesOf(ctS[:1])
 			// the revocation itself, or a closure / helper that performs it on every path
 			revokeS := nfMust(f, nil, nfNamed(`vault\.\(\*TokenStore\)\.revokeOrphan$`), 2)
 			revoke := nfAts(revokeS)
@@ -299,7 +346,10 @@ func runC06(c *eng.Ctx, thorough bool) {
 			if idF == nil {
 				c.Unresolved("logical.TokenEntry.ID")
 			}
-			created := nfCellOf(ct[0].Common().Args[2])
+			var created *ssa.Alloc
+			if ps := c06Pointees(ctS[0].Effs[0].Call.Args[2], ctS[0].Effs[0].Fr); len(ps) == 1 {
+				created = ps[0]
+			}
 			for _, e := range nfEffs(revokeS) {
 				site := "prov{token revoked on failure}"
 				if created == nil {
@@ -308,7 +358,11 @@ func runC06(c *eng.Ctx, thorough bool) {
 				}
 				ok, bad := nfAll(e.Call.Args[2], e.Fr, func(o eng.Origin) bool {
 					base, is := nfFieldOf(o, idF)
-					return is && created != nil && nfCellOf(base) == created
+					if !is {
+						return false
+					}
+					ps := c06Pointees(base, e.Fr)
+					return len(ps) == 1 && ps[0] == created
 				})
 				if ok {
 					c.OK(e.Fn, site, e.Call.In.Pos(), "the ID of the entry handed to CreateToken")
@@ -324,14 +378,15 @@ func runC06(c *eng.Ctx, thorough bool) {
 					okRet = append(okRet, r)
 				}
 			}
-			c.Cut(f, "successful wrap", okRet, eng.GCallOK(f, `vault\.\(\*ExpirationManager\)\.RegisterAuth$`), nil)
+			nfCutOK(c, f, "successful wrap", okRet, 1, nfGCallOK(f, `vault\.\(\*ExpirationManager\)\.RegisterAuth$`))
 		}
 	}
 
 	// ---------- C06.4 RegisterAuth refusals
 	if f := c.Fn("vault.(*ExpirationManager).RegisterAuth"); f != nil {
 		c.Clause("R2", "C06.4")
-		persist := instrsOf(eng.Calls(f, `vault\.\(\*ExpirationManager\)\.persistEntry$`))
+		persistS := nfPlain(nfSites(f, `vault\.\(\*ExpirationManager\)\.persistEntry$`))
+		persist := nfAts(persistS)
 		succ := eng.SuccessReturns(f, 0)
 		c.Floor(f, "persistEntry", len(persist), 1)
 		for _, sinks := range [][]ssa.Instruction{persist, succ} {
@@ -347,12 +402,12 @@ func runC06(c *eng.Ctx, thorough bool) {
 		for _, r := range succ {
 			full = append(full, r)
 		}
-		c.Cut(f, "success reported", full, eng.Or(eng.GCallOK(f, `vault\.\(\*ExpirationManager\)\.persistEntry$`), eng.G(f, `^persistLease$`, false)), nil)
+		nfCutOK(c, f, "success reported", full, 0, nfOKOf(`success edge of vault\.\(\*ExpirationManager\)\.persistEntry$`, persistS), eng.G(f, `^persistLease$`, false))
 		c.Clause("R3", "C06.4")
 		// persisted => tracked
-		for _, p := range persist {
-			ok := eng.CallOKEdges(p.(ssa.CallInstruction))
-			up := instrsOf(eng.Calls(f, `vault\.\(\*ExpirationManager\)\.updatePending$`))
+		for _, p := range persistS {
+			ok := nfOKEdgesOf([]nfSite{p})
+			up := nfAts(nfSites(f, `vault\.\(\*ExpirationManager\)\.updatePending$`))
 			c.CleanupOnEdges(f, "persistEntry succeeded", ok, "updatePending", up)
 		}
 	}
@@ -446,4 +501,22 @@ func c06RouteInLeaseNamespace(c *eng.Ctx, top *ssa.Function, e nfEff) {
 	} else {
 		c.Violation(e.Fn, site, e.Call.In.Pos(), "the request is routed with "+eng.ExprDeep(ctxArg)+" ("+bad+"), not with a context re-scoped by namespace.ContextWithNamespace to the lease's namespace (leaseEntry.namespace): for a lease of a mount in a child namespace the path resolves against another namespace's mount table, the backend is not reached and the secret stays live", nil)
 	}
+}
+
+// c06Pointees: the local variables a pointer may point to — the variable whose
+// address it is (in place or through the free variable of a closure), or the
+// variables whose address was stored into the alias it is read from.
+func c06Pointees(ptr ssa.Value, fr *nfFrame) []*ssa.Alloc {
+	if cell := nfCellOf(ptr); cell != nil {
+		return []*ssa.Alloc{cell}
+	}
+	var out []*ssa.Alloc
+	for _, o := range nfOrigins(ptr, fr) {
+		a, ok := o.Val.(*ssa.Alloc)
+		if !ok || o.Kind != "alloc" {
+			return nil
+		}
+		out = append(out, a)
+	}
+	return out
 }
